@@ -25,6 +25,8 @@ Op(e) ==
          /\ Report("WriteReachesApp", (W /\ ~e.samebefore) => (e.cbn >= 1 /\ e.tok \in SetOf(e.cbtoks)))
          /\ Report("NoWriteWithoutPw", ~W => (e.cbn = 0 /\ (R => cur \in SetOf(e.apptoks))))
          /\ Report("NoValueWithoutPr", ~R => e.appnil)
+         \* a write that is not carried out is answered with an error status, not with a success
+         /\ Report("ShapeRule", ~W => (e.http # 204 /\ e.hasstatus /\ e.status # 0))
          /\ cur' = (IF W THEN e.tok ELSE cur) /\ UNCHANGED subscribed
     [] e.a = "RemoteRead" ->
          /\ Report("ReadsSeeLastWrite", R => (e.http = 200 /\ e.n = 1 /\ e.hasvalue /\ cur \in SetOf(e.rtoks)))
@@ -56,11 +58,23 @@ List(e) ==
         /\ (e.http = 200 <=> \A i \in 1..e.n : Good(e.kinds[i]))
         /\ e.http \in {200, 207})
   /\ UNCHANGED <<cur, subscribed>>
+\* a list write: 204 (or all statuses 0) iff every entry was written; otherwise one entry per requested id, in order, each
+\* with a status: 0 for the entries that were written, an error for the others; written entries reach the application, the
+\* others change nothing
+WGood(k) == k \in {"w1", "w2"}
+WList(e) ==
+  LET allgood == \A i \in 1..Len(e.kinds) : WGood(e.kinds[i]) IN
+  /\ Report("ShapeRule", allgood => (e.http \in {200, 204, 207} /\ (e.n = 0 \/ (e.n = Len(e.kinds) /\ e.idsok /\ \A i \in 1..e.n : (~e.statuses[i] \/ e.zero[i])))))
+  /\ Report("ShapeRule", ~allgood => (/\ e.http \in {200, 207} /\ e.n = Len(e.kinds) /\ e.idsok
+                                       /\ \A i \in 1..e.n : e.statuses[i] /\ (e.zero[i] <=> WGood(e.kinds[i]))))
+  /\ Report("WriteReachesApp", \A i \in 1..Len(e.kinds) : WGood(e.kinds[i]) => e.applied[i])
+  /\ Report("NoWriteWithoutPw", \A i \in 1..Len(e.kinds) : e.kinds[i] = "ro" => ~e.applied[i])
+  /\ UNCHANGED <<cur, subscribed>>
 Next ==
   /\ l <= Len(Trace)
   /\ LET e == Trace[l] IN
      IF e.ev = "reset" THEN cur' = "v0" /\ subscribed' = FALSE
-     ELSE IF e.ev = "list" THEN List(e) ELSE Op(e)
+     ELSE IF e.ev = "list" THEN List(e) ELSE IF e.ev = "wlist" THEN WList(e) ELSE Op(e)
   /\ l' = l + 1
 Accepted == TLCGet("stats").diameter = Len(Trace) + 1
 =======================================================================
